@@ -39,7 +39,7 @@ FUNCS = ["asum", "axpy", "copy", "dot", "dotu", "nrm2", "iamax", "scal", "swap",
          "gemm", "symm", "hemm", "syrk", "herk", "syr2k", "her2k", "trmm", "trsm"]
 REQUIRED_COUNTERS = (["accept." + f for f in FUNCS] + ["reject." + f for f in FUNCS] +
                      ["stratum.1", "stratum.2", "stratum.3", "stratum.4", "omitted-dim", "negative-inc", "zero-dim",
-                      "tc.d", "tc.z", "same-matrix-operands.swap", "same-matrix-operands.syr2k"])
+                      "tc.d", "tc.z", "same-matrix-operands.swap", "same-matrix-operands.syr2k", "extreme-scale.nrm2"])
 
 # |got - ref| <= TOLF * 8 (K+2) u * (|alpha||A||x| + |beta||y|)   (DESIGN.md Appendix C).  The evidence prints
 # max_observed["ratio.*"] = error / (8 (K+2) u scale) over all passing calls; on the unchanged tree it stays
@@ -327,8 +327,40 @@ def run(ctx):
         c.require(np.array_equal(np.array(list(W), dtype=DT[tc]), np.array(wv, dtype=DT[tc])), "%s:same-matrix-input-modified" % fn, "W changed")
         c.cls("same-matrix-2k", fn, tc, uplo)
 
+    def extreme_scale_case(c, rng):
+        """nrm2 / asum on vectors whose entries are far from 1 (the squares under- or overflow, the norm does not)"""
+        import math
+        from cvxopt import matrix
+        tc = rng.choice("dz")
+        n = rng.randint(1, 6)
+        e = rng.choice([-1000, -540, -535, -530, -520, -400, 400, 500, 510])       # entries ~ 2^e
+        sc = math.ldexp(1.0, e)
+        vals = [(complex(rng.uniform(-4, 4), rng.uniform(-4, 4)) if tc == "z" else rng.uniform(-4, 4)) * sc for _ in range(n)]
+        inc = rng.choice([1, 1, 2])
+        buf = []
+        for v in vals:
+            buf += [v] + [(123.0 if tc == "d" else 123.0 + 1j)] * (inc - 1)
+        x = matrix(buf, (len(buf), 1), tc)
+        fn = rng.choice(["nrm2", "nrm2", "asum"])
+        parts = [t for v in vals for t in ((v.real, v.imag) if tc == "z" else (v,))]
+        scaled = [math.ldexp(t, -e) for t in parts]                 # exact
+        if fn == "nrm2":
+            want = math.ldexp(math.sqrt(math.fsum(t * t for t in scaled)), e)
+        else:
+            want = math.ldexp(math.fsum(abs(t) for t in scaled), e)
+        c.desc.update({"fn": fn, "class": "extreme-scale", "tc": tc, "n": n, "exp2": e, "inc": inc})
+        ctx.count("extreme-scale." + fn)
+        c.check()
+        got = getattr(blas, fn)(x, n=n, inc=inc)
+        ok = (want == 0.0 and got == 0.0) or (want != 0.0 and abs(got - want) <= 1e-13 * abs(want) * (n + 2)) or \
+             (abs(want) < 1e-300 and abs(got - want) <= 1e-320)
+        c.require(ok, "%s:extreme-scale-result" % fn, "%s of entries ~2^%d: got %r, reference %r" % (fn, e, got, want))
+        c.cls("extreme-scale", fn, tc, e)
+
     def one(c):
         rng = c.rng
+        if rng.random() < 0.004:
+            return extreme_scale_case(c, rng)
         if rng.random() < 0.01:
             return same_matrix_case(c, rng) if rng.random() < 0.6 else same_matrix_rank2k_case(c, rng)
         fn = FUNCS[(c.k + ctx.worker * 7) % len(FUNCS)] if rng.random() < 0.8 else rng.choice(FUNCS)
